@@ -191,6 +191,8 @@ class SourceTree:
                 stack.extend(getattr(st, fld, []) or [])
             for h in getattr(st, "handlers", []) or []:
                 stack.extend(h.body)
+            for c in getattr(st, "cases", []) or []:  # match statement
+                stack.extend(c.body)
 
     def _index_class(self, m, node: ast.ClassDef):
         ci = ClassInfo(module=m, name=node.name, node=node, bases=list(node.bases))
